@@ -24,7 +24,7 @@ LEAN_MODULES = ["NiftyVerif.Core.Proto", "NiftyVerif.Model.Lanczos", "NiftyVerif
 DRIVER = "Driver/C34.lean"
 OBLIGATIONS = ["NiftyVerif.C34." + t for t in (
     "alpha_eq", "beta_eq", "basis_succ", "lanczos_relation", "lanczos_unit_norm", "lanczos_consecutive_orthogonal", "lanczos_orthonormal",
-    "lanczos_tridiagonal",
+    "lanczos_tridiagonal", "quadrature_exact_full_order", "quadrature_moments",
     "welford_merge", "welford_merge_init", "sylvester_logdet", "elbo_le_evidence", "elbo_tight", "elbo_closed_form",
     "resume_concat", "fullBatches_sum")]
 RULE = ("lanczos case = (SPD matrix of dimension 2..6 (12 thorough) with distinct eigenvalues, start vector, order ≤ n); "
@@ -33,7 +33,8 @@ RULE = ("lanczos case = (SPD matrix of dimension 2..6 (12 thorough) with distinc
         "of the expansion point); non-trivial = dimension ≥ 2; distinct by canonical case")
 TRUSTED_BASE = [
     "Lean 4.33 kernel + Mathlib; axioms propext/Classical.choice/Quot.sound only (audited every run)",
-    "spectral theory not formalised: Ritz values of T_n = VᵀAV are the eigenvalues; Gauss quadrature with n nodes is exact; "
+    "spectral theory not formalised beyond p(T) = Vᵀ p(A) V (quadrature_exact_full_order): that functions of a symmetric matrix "
+    "are polynomials in it on its finite spectrum, Ritz values of T_n = VᵀAV are the eigenvalues; "
     "numpy/scipy eigh, eigsh (executed, compared at small sizes only)",
     "Gaussian integrals: log Z = −H(m) − ½ log det D for the quadratic Hamiltonian; E_q[H] for a Gaussian q",
     "driver sqrt/log: 2^-99-accurate rational approximations (class T)",
@@ -191,19 +192,25 @@ def real_elbo(c):
                 e2 = jft.estimate_evidence_lower_bound(lh, smp, k0, verbose=False, output_directory=None, min_lh_eval=0.0,
                                                        slq_jit=True, **kw)
                 out["slq_eager"], out["slq_jit"] = float(e1[1]["elbo_mean"]), float(e2[1]["elbo_mean"])
-            # one go vs resumed at every split point (eigenpairs saved by the first call are fed to the second)
-            res = []
-            for k in range(1, nrel):
-                d = os.path.join(tmp, f"k{k}")
-                jft.estimate_evidence_lower_bound(lh, smp, k, verbose=False, output_directory=d, min_lh_eval=0.0,
-                                                  n_batches=1)
-                ev = np.load(os.path.join(d, "metric_signal_eigenvalues.npy"))
-                evec = np.load(os.path.join(d, "metric_signal_eigenvectors.npy"))
-                _, st2 = jft.estimate_evidence_lower_bound(lh, smp, nrel, verbose=False, output_directory=None,
-                                                           min_lh_eval=0.0, n_batches=2, resume_eigenvalues=ev,
-                                                           resume_eigenvectors=evec)
-                res.append(float(st2["elbo_mean"]))
-            out["resumed"] = res
+            # {signal, data, auto} × {one go, resumed from every strict non-empty prefix}: ELBO and the eigenvalue LISTS
+            def eig_run(space, k, jit, sub, **kw):
+                d = os.path.join(tmp, sub)
+                _, st_ = jft.estimate_evidence_lower_bound(lh, smp, k, verbose=False, output_directory=d, min_lh_eval=0.0,
+                                                           trace_log_space=space, metric_jit=jit, **kw)
+                suffix = "data" if (space == "data" or (space == "auto" and c["m"] <= c["n"])) else "signal"
+                ev = np.load(os.path.join(d, f"metric_{suffix}_eigenvalues.npy"))
+                evec_f = os.path.join(d, f"metric_{suffix}_eigenvectors.npy")
+                return float(st_["elbo_mean"]), np.asarray(ev, dtype=float), (np.load(evec_f) if os.path.exists(evec_f) else None), suffix
+            out["spaces"] = {}
+            for space in ("signal", "data", "auto"):
+                e_all, ev_all, _, suffix = eig_run(space, nrel, space == "signal", f"{space}_all", n_batches=2)
+                rec = dict(suffix=suffix, elbo=e_all, eigs=ev_all, resumed=[])
+                for k in range(1, nrel):
+                    _, ev_k, evec_k, _ = eig_run(space, k, False, f"{space}_k{k}", n_batches=1)
+                    e_r, ev_r, _, _ = eig_run(space, nrel, False, f"{space}_k{k}r", n_batches=2,
+                                              resume_eigenvalues=ev_k, resume_eigenvectors=evec_k)
+                    rec["resumed"].append(dict(k=k, elbo=e_r, eigs=ev_r, prefix=ev_k))
+                out["spaces"][space] = rec
         finally:
             shutil.rmtree(tmp, ignore_errors=True)
         ham = lambda s: float(lh(s) + 0.5 * jft.vdot(s, s))
@@ -241,9 +248,25 @@ def _classic_elbo(c, pos, res):
     K = len(res) // 2
     sl = ift.ResidualSampleList(mk(pos), [mk(res[2 * i]) for i in range(K) for _ in (0, 1)],
                                 [bool(j % 2) for j in range(2 * K)])
+    fl_ = lambda v: float(np.asarray(v.asnumpy() if hasattr(v, "asnumpy") else getattr(v, "val", v)).reshape(-1)[0])
     _, st = ift.estimate_evidence_lower_bound(H, sl, 0, compute_all=True, verbose=False)
-    v = st["elbo_mean"]
-    return float(np.asarray(v.asnumpy() if hasattr(v, "asnumpy") else getattr(v, "val", v)).reshape(-1)[0])
+    res = dict(elbo=fl_(st["elbo_mean"]), resumed=[])
+    nrel = min(c["n"], c["m"])
+    tmp = tempfile.mkdtemp(prefix="prob_c34cl_")
+    try:
+        for k in range(1, nrel):
+            d = os.path.join(tmp, f"k{k}")
+            ift.estimate_evidence_lower_bound(H, sl, k, verbose=False, output_directory=d, min_lh_eval=0.0, n_batches=1)
+            ev = np.load(os.path.join(d, "metric_signal_eigenvalues.npy"))
+            evec = np.load(os.path.join(d, "metric_signal_eigenvectors.npy"))
+            d2 = os.path.join(tmp, f"k{k}r")
+            _, st2 = ift.estimate_evidence_lower_bound(H, sl, nrel, verbose=False, output_directory=d2, min_lh_eval=0.0,
+                                                       n_batches=2, resume_eigenvalues=ev, resume_eigenvectors=evec)
+            res["resumed"].append(dict(k=k, elbo=fl_(st2["elbo_mean"]),
+                                       eigs=np.asarray(np.load(os.path.join(d2, "metric_signal_eigenvalues.npy")), dtype=float)))
+    finally:
+        shutil.rmtree(tmp, ignore_errors=True)
+    return res
 
 
 def _np_model(c):
@@ -281,16 +304,39 @@ def _oracle_elbo(c):
         return (f"expected ELBO {expected!r} exceeds the exact log-evidence {log_ev!r}", dict(sig, what="bound"))
     if all(fr(x) == 0 for x in c["shift"]) and not abs(expected - log_ev) <= 1e-9 * sc:
         return ("ELBO at the exact posterior is not tight", dict(sig, what="tight"))
-    for name in ("data", "slq_all", "classic"):
+    for name in ("data", "slq_all"):
         if not abs(r[name] - r["elbo_mean"]) <= 1e-8 * sc:
             return (f"ELBO ({name}) {r[name]!r} differs from the signal-space eigsh JAX value {r['elbo_mean']!r}",
                     dict(sig, what=name))
+    if not abs(r["classic"]["elbo"] - r["elbo_mean"]) <= 1e-8 * sc:
+        return (f"classic ELBO {r['classic']['elbo']!r} differs from the JAX value {r['elbo_mean']!r}", dict(sig, what="classic"))
+    # eigenvalue lists: exact spectrum of the metric (signal) / of S R Rᵀ Sᵀ (data), largest first
+    nrel = min(c["n"], c["m"])
+    lam = np.sort(np.linalg.eigvalsh(D))[::-1][:nrel]
+    want = {"signal": lam, "data": lam - 1.0}
+    esc = max(1.0, float(lam[0]))
+    for space, rec in r["spaces"].items():
+        w = want[rec["suffix"]]
+        if rec["eigs"].shape != w.shape or not np.max(np.abs(rec["eigs"] - w)) <= 1e-9 * esc:
+            return (f"trace_log_space={space}: eigenvalues {rec['eigs']} differ from the exact {w}", dict(sig, what="eigenvalues", space=space))
+        if not abs(rec["elbo"] - r["elbo_mean"]) <= 1e-8 * sc:
+            return (f"trace_log_space={space}: ELBO {rec['elbo']!r} differs from {r['elbo_mean']!r}", dict(sig, what="space", space=space))
+        for rr in rec["resumed"]:
+            if rr["eigs"].shape != w.shape or not np.max(np.abs(rr["eigs"] - w)) <= 1e-9 * esc:
+                return (f"trace_log_space={space}, resumed from {rr['k']} eigenpairs: eigenvalue list {rr['eigs']} is not the "
+                        f"one-go list {w} (prefix {rr['prefix']})", dict(sig, what="resume_eigenvalues", space=space))
+            if not abs(rr["elbo"] - r["elbo_mean"]) <= 1e-8 * sc:
+                return (f"trace_log_space={space}, resumed from {rr['k']} eigenpairs: ELBO {rr['elbo']!r} differs from the "
+                        f"one-go value {r['elbo_mean']!r}", dict(sig, what="resume", space=space))
+    for rr in r["classic"]["resumed"]:
+        if rr["eigs"].shape != lam.shape or not np.max(np.abs(rr["eigs"] - lam)) <= 1e-9 * esc:
+            return (f"classic, resumed from {rr['k']} eigenpairs: eigenvalue list {rr['eigs']} is not {lam}",
+                    dict(sig, what="resume_eigenvalues", space="classic"))
+        if not abs(rr["elbo"] - r["elbo_mean"]) <= 1e-8 * sc:
+            return (f"classic, resumed from {rr['k']} eigenpairs: ELBO {rr['elbo']!r} differs from {r['elbo_mean']!r}",
+                    dict(sig, what="resume", space="classic"))
     if "slq_eager" in r and not abs(r["slq_eager"] - r["slq_jit"]) <= 1e-8 * sc:
         return (f"SLQ remainder eager {r['slq_eager']!r} vs slq_jit {r['slq_jit']!r}", dict(sig, what="slq_jit"))
-    for k, v in enumerate(r["resumed"], start=1):
-        if not abs(v - r["elbo_mean"]) <= 1e-8 * sc:
-            return (f"ELBO resumed after {k} eigenpairs {v!r} differs from the one-go value {r['elbo_mean']!r}",
-                    dict(sig, what="resume"))
     return None
 
 
@@ -353,8 +399,8 @@ def shrink(case):
 # ------------------------------------------------------------------------------------------------ run
 def run(ctx):
     rng = ctx.rng
-    lz = [gen_lanczos(rng, ctx.quick) for _ in range(ctx.n(8, 100))]
-    sq = [gen_slq(rng, ctx.quick) for _ in range(ctx.n(5, 40))]
+    lz = [gen_lanczos(rng, ctx.quick) for _ in range(ctx.n(5, 100))]
+    sq = [gen_slq(rng, ctx.quick) for _ in range(ctx.n(3, 40))]
     el = [gen_elbo(rng, ctx.quick, mode=md) for md in ("wide", "square", "tall")]      # fewer / as many / more data than dofs
     el += [gen_elbo(rng, ctx.quick) for _ in range(ctx.n(0, 20))]
     wf = [dict(sub="welford", a=[rs(dyadic(rng, -4, 4, 2)) for _ in range(rng.randint(1, 5))],
